@@ -12,26 +12,26 @@ def cfgToken (c : Chart) (config : List Nat) : String :=
 
 /-- run `step(0)` until IDLE/FINISHED (or the cap), appending `ret:`/`cfg:` after every step -/
 def runLarge (c : Chart) : Nat → Large.EState → Large.EState
-  | 0, e => { e with x := e.x.emit (.raw "DIVERGE") }
+  | 0, e => { e with x := e.x.emit (.note "DIVERGE") }
   | fuel + 1, e =>
     let (e, r) := Large.step c e
-    let e := { e with x := (e.x.emit (.ret r.toString)).emit (.raw (cfgToken c e.config)) }
+    let e := { e with x := (e.x.emit (.ret r.toString)).emit (.note (cfgToken c e.config)) }
     if r == .idle || r == .finished then e else runLarge c fuel e
 
 def stepCap : Nat := 60
 
 def runFast (c : Chart) : Nat → Large.EState → Large.EState
-  | 0, e => { e with x := e.x.emit (.raw "DIVERGE") }
+  | 0, e => { e with x := e.x.emit (.note "DIVERGE") }
   | fuel + 1, e =>
     let (e, r) := Fast.step c e
-    let e := { e with x := (e.x.emit (.ret r.toString)).emit (.raw (cfgToken c e.config)) }
+    let e := { e with x := (e.x.emit (.ret r.toString)).emit (.note (cfgToken c e.config)) }
     if r == .idle || r == .finished then e else runFast c fuel e
 
 def traceFast (c : Chart) (events : List String) : String :=
   let e : Large.EState := { x := { obs := [Tok.ret "INITIALIZED"] } }
   let e := runFast c stepCap e
   let e := events.foldl (fun e ev =>
-    if e.x.obs.head? == some (Tok.raw "DIVERGE") then e
+    if e.x.obs.head? == some (Tok.note "DIVERGE") then e
     else runFast c stepCap { e with x := e.x.sendExt ev }) e
   " ".intercalate (e.x.obs.reverse.map Tok.toString)
 
@@ -39,7 +39,7 @@ def traceLarge (c : Chart) (events : List String) : String :=
   let e : Large.EState := { x := { obs := [Tok.ret "INITIALIZED"] } }
   let e := runLarge c stepCap e
   let e := events.foldl (fun e ev =>
-    if e.x.obs.head? == some (Tok.raw "DIVERGE") then e
+    if e.x.obs.head? == some (Tok.note "DIVERGE") then e
     else runLarge c stepCap { e with x := e.x.sendExt ev }) e
   " ".intercalate (e.x.obs.reverse.map Tok.toString)
 
